@@ -367,6 +367,33 @@ def r12_7(ctx, rep):
         raise MechanismMissing(R, "fewer than 2 constructing returns found in the SX-to-MX translator")
 
 
+@SPEC.rule(
+    "R12.8",
+    "a representation switch decides by itself: every test in casadi/model.py that reads options['expand_mx'] is made of option reads only "
+    "(and / or / not) — combined with a property of the data (`... and len(symvar(eq)) > 2`) the expansion that both settings rely on to "
+    "recognise an alias equation is made for some equations and not for others, and the two settings eliminate different variables",
+)
+def r12_8(ctx, rep):
+    R = "R12.8"
+    mod = ctx.module(MODEL, R)
+    n = 0
+    for t in ast.walk(mod):
+        if isinstance(t, (ast.If, ast.While, ast.IfExp)) and any(subscript_key(x) == "expand_mx" for x in ast.walk(t.test) if isinstance(x, ast.Subscript)):
+            n += 1
+
+            def pure(e):
+                if isinstance(e, ast.BoolOp):
+                    return all(pure(v) for v in e.values)
+                if isinstance(e, ast.UnaryOp) and isinstance(e.op, ast.Not):
+                    return pure(e.operand)
+                return isinstance(e, ast.Subscript) and subscript_key(e) is not None and is_name(e.value, "options")
+
+            rep.ob(R, MODEL + ":" + _enclosing_fn(t), "test `%s` reads options only" % norm(t.test)[:60], pure(t.test),
+                   "the test mixes the representation option with something computed from the model")
+    if n < 2:
+        raise MechanismMissing(R, "fewer than 2 tests of options['expand_mx'] found in casadi/model.py")
+
+
 # -- seeded variants ---------------------------------------------------------
 @SPEC.rule(
     "R12.5",
